@@ -88,6 +88,9 @@ def run_one(seed, preset=None, tier="quick", want_case=False):
     metrics["sites"] = len(sites)
     singles = list(sites)
     high = [x for x in sites if any(isinstance(i, int) and i >= 256 for i in x[0])]
+    very_high = [x for x in sites if any(isinstance(i, int) and i >= 4096 for i in x[0])]
+    if very_high:
+        high = very_high  # beyond any 2^12 batch
     if tier == "quick":
         singles = ft.shuffle(singles)[:12] if len(singles) > 12 else singles
     else:
